@@ -79,6 +79,8 @@ class GattWorld:
                 val[(r['sidx'], r['cidx'], r['didx'])] = r
         objs = {}
         cells_by_key = {}
+        cell_of_obj = {}
+        pending_cells = []
 
         def mk(si):
             if si in objs:
@@ -96,6 +98,7 @@ class GattWorld:
                 if c.get('dyn'):
                     cell = Cell(row['value'])
                     cells_by_key[(si, ci)] = cell
+                    pending_cells.append(cell)
 
                     def rd(_connection, cell=cell):
                         cell.reads += 1
@@ -109,6 +112,8 @@ class GattWorld:
                 else:
                     value = row['value']
                 chars.append(gatt.Characteristic(UUID.from_bytes(M.uuid_raw(*c['u'])), gatt.Characteristic.Properties(c['pr']), RW, value, descs))
+                if c.get('dyn'):
+                    cell_of_obj[id(chars[-1])] = pending_cells.pop()
             objs[si] = gatt.Service(UUID.from_bytes(M.uuid_raw(*s['u'])), chars, primary=bool(s['p']), included_services=inc)
             return objs[si]
 
@@ -119,19 +124,21 @@ class GattWorld:
                 self.server.add_service(objs[si])
         attrs = list(self.server.attributes)
         self.objs = attrs
-        if self.defaults:
-            self.cells = {}
-            self.model = self.adopt()
-            return self.model
-        model.bind([a.handle for a in attrs])
+        if self.defaults or model.autoreg():
+            # The order of the attributes is then not the harness's choice (default services come first; an
+            # included service that was never added is placed by bumble): the reference adopts the order, kinds,
+            # UUIDs and static values from the server's objects and computes grouping and declarations itself.
+            model = self.adopt(spec)
+        else:
+            model.bind([a.handle for a in attrs])
         self.cells = {}
-        for r in model.rows:
-            if r['kind'] == 'chr_value' and r.get('dyn'):
-                self.cells[r['i']] = cells_by_key[(r['sidx'], r['cidx'])]
+        for r, a in zip(model.rows, attrs):
+            if id(a) in cell_of_obj:
+                self.cells[r['i']] = cell_of_obj[id(a)]
         self.model = model
         return model
 
-    def adopt(self) -> M.Model:
+    def adopt(self, spec=None) -> M.Model:
         """Reference built from the Python objects the server database consists of (used when
         bumble's default services are present): kinds, UUIDs, properties and static values are
         read from the objects; order-derived grouping and declaration values are the model's."""
@@ -167,7 +174,7 @@ class GattWorld:
                 is_cccd = M.widen(raw) == M.widen(M.h16(M.T_CCCD)) and isinstance(a.value, att.AttributeValueV2)
                 rows.append({'kind': 'cccd' if is_cccd else 'descriptor', 'sidx': cur, 'cidx': cidx, 'type': M.wire(raw), 'w': len(raw) * 8,
                              'value': b'\x00\x00' if is_cccd else static, 'handle': a.handle})
-        return M.Model(None, rows=rows)
+        return M.Model(spec, rows=rows)
 
     def layout_problems(self):
         """Row sequence of the model vs the attribute list the real server built
